@@ -4,7 +4,7 @@ LEVEL = 'proof'
 LEVEL_TEXT = 'transientTerm (scalar and per-cell alpha, traced through the real CellVariable arithmetic) is proved to be diag(alpha_P/dt) on interior rows with RHS alpha_P*old_P/dt; together with the solvePDE row identity every interior row of a step reads alpha_P(new-old)_P/dt + (spatial terms applied to new)_P = sources; solveExplicitPDE: interior = old + dt*RHS, boundary values re-imposed, input not written, result is a new variable'
 LEVEL_NOTE = 'steady state = fixed point follows from the per-row identity and non-singularity (A4); the limits dt->0, dt->infinity and the O(dt^2) explicit/implicit agreement are analytic corollaries and are NOT machine-checked'
 NOT_MACHINE_CHECKED = ['dt -> infinity returns the steady solution', 'dt -> 0 returns the old field', 'explicit and implicit step agree to O(dt^2)']
-MODULES = ['contracts.solver']
+MODULES = ['contracts.solver', 'contracts.state']
 TRUSTED = ['A1', 'A2', 'A4', 'A5', 'A6', 'UF']
 
 
